@@ -54,6 +54,10 @@ func MX() []*descriptorpb.FileDescriptorProto {
 	leaf.OneofField("o", "oi", 7, S(Int32))
 	leaf.Field("b", 8, S(Bytes))
 
+	chain := f.Msg("Chain") // recursion with branching factor 1
+	chain.Field("next", 1, M(chain.Full()))
+	chain.Field("v", 2, S(Int32))
+
 	sing := f.Msg("Sing")
 	proto.SetExtension(ensureMsgOpts(sing.P), cosmos_proto.E_ImplementsInterface, []string{"verif.Iface"})
 	for i, k := range Scalars[:13] {
